@@ -172,3 +172,63 @@ func anyStrings(v any) []string {
 	}
 	return out
 }
+
+// shardWriter writes trace records round-robin into <base>.<k> files (one TLC process per shard)
+// and the matching replay records into <base>.replay.<k> (same line number = same trace).
+type shardWriter struct {
+	files   []*os.File
+	bufs    []*bufio.Writer
+	rfiles  []*os.File
+	rbufs   []*bufio.Writer
+	counts  []int
+	next    int
+}
+
+func newShardWriter(base string, n int) *shardWriter {
+	sw := &shardWriter{}
+	for k := 0; k < n; k++ {
+		f, err := os.Create(fmt.Sprintf("%s.%d", base, k))
+		if err != nil {
+			die("%v", err)
+		}
+		rf, err := os.Create(fmt.Sprintf("%s.replay.%d", base, k))
+		if err != nil {
+			die("%v", err)
+		}
+		sw.files = append(sw.files, f)
+		sw.bufs = append(sw.bufs, bufio.NewWriterSize(f, 1<<20))
+		sw.rfiles = append(sw.rfiles, rf)
+		sw.rbufs = append(sw.rbufs, bufio.NewWriterSize(rf, 1<<20))
+		sw.counts = append(sw.counts, 0)
+	}
+	return sw
+}
+
+// write stores one trace and its replay record; returns (shard, 1-based line = TLC's tid).
+func (sw *shardWriter) write(trace, replay any) (int, int) {
+	k := sw.next
+	sw.next = (sw.next + 1) % len(sw.files)
+	tb, err := json.Marshal(trace)
+	if err != nil {
+		die("marshal trace: %v", err)
+	}
+	rb, err := json.Marshal(replay)
+	if err != nil {
+		die("marshal replay: %v", err)
+	}
+	sw.bufs[k].Write(tb)
+	sw.bufs[k].WriteByte('\n')
+	sw.rbufs[k].Write(rb)
+	sw.rbufs[k].WriteByte('\n')
+	sw.counts[k]++
+	return k, sw.counts[k]
+}
+
+func (sw *shardWriter) close() {
+	for k := range sw.files {
+		sw.bufs[k].Flush()
+		sw.files[k].Close()
+		sw.rbufs[k].Flush()
+		sw.rfiles[k].Close()
+	}
+}
